@@ -1032,7 +1032,7 @@ func (t *Tokenizer) readQuotedString(quote rune) (models.Token, error) {
 					fmt.Sprintf("invalid escape sequence: %v", err),
 					models.Location{Line: t.pos.Line, Column: t.pos.Column},
 					string(t.input),
-				)
+				).WithCause(err)
 			}
 			continue
 		}
